@@ -48,6 +48,7 @@ type half struct {
 
 	rdeadline time.Time
 	wdeadline time.Time
+	rscale    int // >1: read deadlines expire this many times sooner
 	opts      Options
 	gen       int // bumped by deadline changes to wake sleepers
 }
@@ -255,8 +256,22 @@ func (e *End) SetDeadline(t time.Time) error {
 	e.SetWriteDeadline(t)
 	return nil
 }
+
+// ScaleReadDeadlines makes every read deadline set from now on expire k times sooner
+// (a 30 s idle timeout becomes 30/k s): virtual time for idle-connection scenarios.
+func (e *End) ScaleReadDeadlines(k int) {
+	e.in.mu.Lock()
+	e.in.rscale = k
+	e.in.mu.Unlock()
+}
+
 func (e *End) SetReadDeadline(t time.Time) error {
 	e.in.mu.Lock()
+	if e.in.rscale > 1 && !t.IsZero() {
+		if d := time.Until(t); d > 0 {
+			t = time.Now().Add(d / time.Duration(e.in.rscale))
+		}
+	}
 	e.in.rdeadline = t
 	e.in.cond.Broadcast()
 	e.in.mu.Unlock()
